@@ -39,6 +39,10 @@ PSL_TEST_VECTORS = [("com", None), ("example.com", "example.com"), ("b.example.c
                     ("食狮.com.cn", "食狮.com.cn"), ("食狮.公司.cn", "食狮.公司.cn"), ("www.食狮.公司.cn", "食狮.公司.cn"), ("shishi.公司.cn", "shishi.公司.cn"), ("公司.cn", None), ("食狮.中国", "食狮.中国"), ("中国", None)]
 
 
+PSL_VECTOR_RULES = ["com", "biz", "uk.com", "ac", "*.mm", "jp", "ac.jp", "kyoto.jp", "ide.kyoto.jp", "*.kobe.jp", "!city.kobe.jp", "*.ck", "!www.ck", "us", "ak.us", "k12.ak.us",
+                    "cn", "com.cn", "公司.cn", "中国"]
+
+
 def judge(ctx, fns, host_spelling, host, exp, tag, wit):
     """fns: dict name -> callable on the spelling."""
     if exp is None:
@@ -205,12 +209,18 @@ def run(ctx):
         if ctx.shard == 0:
             # self-validation of the reference matcher against the canonical publicsuffix.org test vectors (registrable domain, or None);
             # a reference that fails them is not a trustworthy oracle: the run must then be INCONCLUSIVE, never "held"
+            # (first over a rule list embedded here, so that a damaged bundled list is not mistaken for a damaged reference; then over
+            # the bundled list, where a failing vector is a defect of the bundled data the oracle is built from)
+            emb = PSL(PSL_VECTOR_RULES)
             for host, want in PSL_TEST_VECTORS:
-                e = ref.expect(host)
-                got = None if (e is None or not e["valid"] or e["split"][0] == "") else e["domain"]
-                ctx.count("reference-selftest-vectors")
-                if got != want:
-                    raise RuntimeError("reference PSL matcher fails the publicsuffix.org test vector %r: got %r, want %r" % (host, got, want))
+                for which, matcher in (("embedded", emb), ("bundled", ref)):
+                    e = matcher.expect(host)
+                    got = None if (e is None or not e["valid"] or e["split"][0] == "") else e["domain"]
+                    ctx.count("reference-selftest-vectors")
+                    if got != want and which == "embedded":
+                        raise RuntimeError("reference PSL matcher fails the publicsuffix.org test vector %r: got %r, want %r" % (host, got, want))
+                    if got != want:
+                        ctx.viol("C08:data:publicsuffix-test-vector-fails-over-bundled-list", {"host": host}, {"got": got, "want": want})
             # spot entries of the bundled data (the lists are used as data by the oracle, so a lost entry would otherwise be invisible)
             for r in ("com", "co.uk", "*.ck", "!www.ck", "*.kawasaki.jp", "!city.kawasaki.jp", "fr", "github.io", "blogspot.com", "pvt.k12.ma.us"):
                 ctx.count("data-spot-entry")
